@@ -54,7 +54,7 @@ IsKnot(n) == n \in DOMAIN Prog.knots
 (*   ret    value returned by the function call that just finished         *)
 (***************************************************************************)
 Frame(b) == [b |-> b, i |-> 1]
-Act(kind, b) == [kind |-> kind, fr |-> <<Frame(b)>>, temps |-> <<>>, fnStart |-> 0]
+Act(kind, b) == [kind |-> kind, fr |-> <<Frame(b)>>, temps |-> <<>>, fnStart |-> 0, fnStart0 |-> 0, cont |-> [mode |-> "drop"]]
 
 InitVars == [i \in 1..Len(Prog.globals) |-> Prog.globals[i]]
 VarMap == [n \in {Prog.globals[i].n : i \in 1..Len(Prog.globals)} |->
@@ -134,10 +134,14 @@ StrOf(m, b, i) ==       \* [text, tags]
 (***************************************************************************)
 (* Control                                                                 *)
 (***************************************************************************)
+RECURSIVE ResetFn(_)
+ResetFn(t) ==      \* real text has arrived: no function on top of the stack trims the start of its output any more
+  IF t = <<>> \/ Head(t).kind # "fn" THEN t ELSE <<[Head(t) EXCEPT !.fnStart = 0]>> \o ResetFn(Tail(t))
+
 Emit(m, it) ==
   LET a == CurAct(m)
       r == O!Push(m.out, it, a.fnStart) IN
-  IF r.fnDone THEN SetAct([m EXCEPT !.out = r.out], [a EXCEPT !.fnStart = 0]) ELSE [m EXCEPT !.out = r.out]
+  IF r.fnDone THEN SetThread([m EXCEPT !.out = r.out], ResetFn(CurThread(m))) ELSE [m EXCEPT !.out = r.out]
 
 \* advance the instruction pointer of the top frame
 Advance(m) ==
@@ -160,16 +164,28 @@ Goto(m, target) ==
            m1 == IF from # target THEN Visit(m, target) ELSE m IN
        SetAct(m1, [a EXCEPT !.fr = <<Frame(Knot(target).body)>>])
 
+\* assignment to a temporary of the current activation if there is one of that name, else to the global
+Assign(m, x, v) ==
+  LET a == CurAct(m) IN
+  IF x \in DOMAIN a.temps THEN SetAct(m, [a EXCEPT !.temps = Put(a.temps, x, v)]) ELSE [m EXCEPT !.vars = Put(m.vars, x, v)]
+
+\* a function call ends with value v (void: nothing): whitespace it produced at its end is dropped, the caller goes on
+\* with the value - printed, assigned or dropped
+FnReturn(m, v) ==
+  LET t == CurThread(m)
+      a == Head(t)
+      m1 == SetThread([m EXCEPT !.out = O!TrimFunctionEnd(m.out, a.fnStart0)], Tail(t)) IN
+  CASE a.cont.mode = "print" -> IF v.t = "void" THEN m1 ELSE Emit(m1, O!T(ValChars(v)))
+    [] a.cont.mode = "set" -> Assign(m1, a.cont.x, v)
+    [] OTHER -> m1
+
 \* the body under execution is exhausted
 PopFrame(m) ==
   LET t == CurThread(m)
       a == Head(t) IN
   IF Len(a.fr) > 1 THEN SetAct(m, [a EXCEPT !.fr = Tail(a.fr)])
   ELSE \* the activation has run out of content
-       IF a.kind = "fn" THEN
-            \* implicit return of a function: void
-            LET m1 == [m EXCEPT !.out = O!TrimFunctionEnd(m.out, a.fnStart)] IN
-            [SetThread(m1, Tail(t)) EXCEPT !.ret = [t |-> "void"]]
+       IF a.kind = "fn" THEN FnReturn(m, [t |-> "void"])      \* implicit return of a function: void
        ELSE \* out of content (in a tunnel, too: nothing returns implicitly): a forked thread gives way to the thread
             \* below it, otherwise the flow stops - an error unless choices are on offer (Settle)
             IF Len(m.th) > 1 THEN [m EXCEPT !.th = Tail(m.th)]
@@ -202,10 +218,20 @@ Exec(m, s) ==
     [] s.k = "nl"  -> Advance(Emit(m, O!NL))
     [] s.k = "tag" -> Advance(Emit(m, O!TAG(StrOf(m, s.b, 1).text)))
     [] s.k = "set" -> LET v == Eval(m, s.e) IN
-                      IF v.t = "error" THEN Fail(m, v.v)
-                      ELSE IF s.x \in DOMAIN CurAct(m).temps
-                           THEN LET a == CurAct(m) IN Advance(SetAct(m, [a EXCEPT !.temps = Put(a.temps, s.x, v)]))
-                           ELSE Advance([m EXCEPT !.vars = Put(m.vars, s.x, v)])
+                      IF v.t = "error" THEN Fail(m, v.v) ELSE Advance(Assign(m, s.x, v))
+    [] s.k = "call" -> \* f(args) as a statement (mode drop), printed (print) or assigned (set, x)
+                      LET fn == Knot(s.f)
+                          vals == [i \in 1..Len(s.args) |-> Eval(m, s.args[i])]
+                          temps == [n \in {fn.params[i] : i \in 1..Len(fn.params)} |->
+                                      vals[CHOOSE i \in 1..Len(fn.params) : fn.params[i] = n]]
+                          m1 == Visit(Advance(m), s.f)
+                          act == [kind |-> "fn", fr |-> <<Frame(fn.body)>>, temps |-> temps, fnStart |-> Len(m.out) + 1,
+                                  fnStart0 |-> Len(m.out) + 1, cont |-> [mode |-> s.mode, x |-> s.x]] IN
+                      IF \E i \in 1..Len(vals) : vals[i].t = "error" THEN Fail(m, "argument")
+                      ELSE SetThread(m1, <<act>> \o CurThread(m1))
+    [] s.k = "ret" -> IF CurAct(m).kind # "fn" THEN Fail(m, "return outside a function")
+                      ELSE LET v == IF s.e.k = "void" THEN [t |-> "void"] ELSE Eval(m, s.e) IN
+                           IF v.t = "error" THEN Fail(m, v.v) ELSE FnReturn(m, v)
     [] s.k = "temp" -> LET v == Eval(m, s.e)
                            a == CurAct(m) IN
                        IF v.t = "error" THEN Fail(m, v.v) ELSE Advance(SetAct(m, [a EXCEPT !.temps = Put(a.temps, s.x, v)]))
